@@ -24,7 +24,7 @@ def corruptions(traces):
     if t:
         c = copy.deepcopy(t); i = idx[len(idx) // 2]
         c["ev"][i]["m"]["en"][0] += 1
-        out.append(("en_incremented", "C03", {"pred_slots", "slot_designates_evaluation"}, c))
+        out.append(("en_incremented", "C03", {"pred_slots", "slot_evalnum_in_range", "slot_point_is_the_evaluated_point"}, c))
     # 2. all SavePoint events dropped
     t, idx = pick(lambda e: e["ev"] == "SavePoint" and e["saved"])
     if t:
